@@ -399,6 +399,10 @@ class _Expr(ast.NodeTransformer):
             red = beta_reduce(node)
             if red is not node:
                 return self.visit(red)
+        if isinstance(node.func, ast.Name) and node.func.id == "tuple" and not node.args and not node.keywords:
+            return ast.Tuple(elts=[], ctx=ast.Load())
+        if isinstance(node.func, ast.Name) and node.func.id == "vars" and len(node.args) == 1 and not node.keywords:
+            return ast.Attribute(value=node.args[0], attr="__dict__", ctx=ast.Load())
         # reversed(range(a, b))  ==  range(b - 1, a - 1, -1)
         if isinstance(node.func, ast.Name) and node.func.id == "reversed" and len(node.args) == 1 and not node.keywords \
                 and isinstance(node.args[0], ast.Call) and isinstance(node.args[0].func, ast.Name) \
@@ -1910,11 +1914,39 @@ class SegmentAdopter(object):
                 elif len(cseg) == 1 and len(rseg) == 1 and type(cseg[0]) is type(rseg[0]):
                     out.append(self.inside(cfn, rfn, cseg[0], rseg[0]))
                 else:
-                    out.extend(cseg)
+                    # compound statements with the same header are paired (in order) and looked into
+                    used = 0
+                    for a_ in cseg:
+                        hit = None
+                        if isinstance(a_, (ast.If, ast.For, ast.While, ast.With, ast.Try) + FuncTypes):
+                            for j_ in range(used, len(rseg)):
+                                b_ = rseg[j_]
+                                if type(a_) is type(b_) and self.header(a_) == self.header(b_):
+                                    hit = j_
+                                    break
+                        if hit is not None:
+                            out.append(self.inside(cfn, rfn, a_, rseg[hit]))
+                            used = hit + 1
+                        else:
+                            out.append(a_)
             elif tag == "delete":
                 out.extend(cseg)
             # 'insert' (reference statements missing here): nothing to add
         return out
+
+    @staticmethod
+    def header(st):
+        if isinstance(st, FuncTypes):
+            return ("def", st.name)
+        if isinstance(st, (ast.If, ast.While)):
+            return ("test", ast.dump(st.test))
+        if isinstance(st, ast.For):
+            return ("for", ast.dump(st.target), ast.dump(st.iter))
+        if isinstance(st, ast.With):
+            return ("with", tuple(ast.dump(i) for i in st.items))
+        if isinstance(st, ast.Try):
+            return ("try", len(st.handlers))
+        return None
 
     def inside(self, cfn, rfn, c, r):
         if isinstance(c, FuncTypes) and c.name == r.name:
